@@ -33,6 +33,8 @@ long long lsv_i(void){ long long v = (long long)nondet_size_t(); return v; }
 /* equality of doubles: exact in the symbolic build (bit-exact in E-BITS apart from NaN==NaN, exact reals in E-REAL) */
 #define CHECK_EQ(a, b, label) do{ double lsv_a_=(a), lsv_b_=(b); _Bool lsv_c_ = (lsv_a_==lsv_b_ || (lsv_a_!=lsv_a_ && lsv_b_!=lsv_b_)); __CPROVER_assert(lsv_c_, label); }while(0)
 #define CHECK_LE(a, b, label) do{ _Bool lsv_c_ = ((a) <= (b)); __CPROVER_assert(lsv_c_, label); }while(0)
+/* link of an assert-then-assume chain: proved as its own VC, then available as a hypothesis to the later assertions */
+#define LEMMA_EQ(a, b, label) do{ double lsv_x_=(a), lsv_y_=(b); { _Bool lsv_c_ = (lsv_x_==lsv_y_); __CPROVER_assert(lsv_c_, label); } __CPROVER_assume(lsv_x_==lsv_y_); }while(0)
 /* reachability witness: expected to FAIL (the end of the harness is reachable under the assumptions) */
 #define WITNESS() __CPROVER_assert(0, "LSV_WITNESS end of harness reachable")
 #define LSV_SYMBOLIC 1
@@ -52,6 +54,7 @@ extern double lsv_tol; extern int lsv_absent;
 #define CHECK_LE(a, b, label) do{ double lsv_a_=(a), lsv_b_=(b); double lsv_s_=fmax(1.0, fmax(fabs(lsv_a_), fabs(lsv_b_))); \
   if(!(lsv_a_ <= lsv_b_ + lsv_tol*lsv_s_)){ printf("REPRODUCED %s: %.17g > %.17g (%s:%d)\n", label, lsv_a_, lsv_b_, __FILE__, __LINE__); fflush(stdout); exit(1);} }while(0)
 #define WITNESS() ((void)0)
+#define LEMMA_EQ(a, b, label) CHECK_EQ(a, b, label)
 #define __CPROVER_w_ok(p, n) 1
 #define __CPROVER_r_ok(p, n) 1
 #define __CPROVER_same_object(a, b) ((const void*)(a)==(const void*)(b))
